@@ -909,7 +909,8 @@ def filters_check(prop, tier):
         h["origin"] = "model with links"
         scenarios.append(h)
     scenarios += library_scenarios(prop, tier, len(scenarios) + 1, rnd)
-    results, yielded, tstats, ntraces = W.run_and_validate(prop, scenarios, prop.lower(), v)
+    pivots = W.prepare_glob_scenarios(scenarios)
+    results, yielded, tstats, ntraces = W.run_and_validate(prop, scenarios, prop.lower(), v, pivots=pivots)
     for a, b in pairs:
         if a in yielded and b in yielded and emitted_set(yielded[a]) != emitted_set(yielded[b]):
             v.disagree({"t": "DISAGREE", "what": "order_of_layers_changes_result", "sid": a},
@@ -941,9 +942,24 @@ def filters_check(prop, tier):
 def library_scenarios(prop, tier, first_sid, rnd):
     """C13: path walks with single negations, among them ones whose exhaustive and non-exhaustive alternatives both
     match a directory (it must be discarded as a tree: nothing beneath it reaches the layers after the not)"""
+    out = []
+    if prop == "C16":
+        # glob walks that prune a directory which a later layer discards as a tree as well (and the reverse order
+        # of two layers behind the glob): the second tree verdict must not cancel again
+        nodes, index = W.tree(W.TREES["plain"])
+        stacks = [[{"kind": "filter", "verdicts": {"root/b": "tree"}}],
+                  [{"kind": "not", "patterns": [C.cps("b/**")], "mode": "text"}],
+                  [{"kind": "filter", "verdicts": {"root/b": "tree", "root/a/b": "file"}}, {"kind": "not", "patterns": [C.cps("b/**")], "mode": "text"}],
+                  [{"kind": "not", "patterns": [C.cps("b/**")], "mode": "text"}, {"kind": "filter", "verdicts": {"root/b": "tree", "root/a/b": "file"}}]]
+        for g in ("a*/**", "?/b/*", "{a,.h}/**"):
+            for st in stacks:
+                for rooted in (False, True):
+                    out.append({"sid": first_sid + len(out), "nodes": nodes, "follow": False, "min": -1, "max": -1, "rooted": rooted, "glob": C.cps(g),
+                                "walk_from": index["root"], "base": "abs", "tree": "plain", "origin": "library", "layers": st,
+                                "desc": "%sglob %r over tree plain with %d layers" % ("rooted " if rooted else "", g, len(st))})
+        return out
     if prop != "C13":
         return []
-    out = []
     for tname in ("plain", "deep"):
         nodes, index = W.tree(W.TREES[tname])
         for neg in NEGATIONS:
@@ -953,6 +969,15 @@ def library_scenarios(prop, tier, first_sid, rnd):
                         "walk_from": index["root"], "base": "abs", "tree": tname, "origin": "library", "_neg": tuple(neg), "_base_text": "root",
                         "layers": [{"kind": "not", "patterns": [C.cps(neg[0])], "mode": "text" if len(out) % 2 else "compiled"}],
                         "desc": "path walk over tree %s .not(%r)" % (tname, neg[0])})
+    # glob walks (unrooted and rooted) in which directories fail a component program before the first tree wildcard:
+    # they are discarded as trees, so nothing beneath them reaches the entry filter that follows
+    nodes, index = W.tree(W.TREES["plain"])
+    for g in ("a*/**", "*/b/*", "a/b/*", "?/*.txt", "{a,b}/a/**"):
+        for rooted in (False, True):
+            out.append({"sid": first_sid + len(out), "nodes": nodes, "follow": False, "min": -1, "max": -1, "rooted": rooted, "glob": C.cps(g),
+                        "walk_from": index["root"], "base": "abs", "tree": "plain", "origin": "library",
+                        "layers": [{"kind": "filter", "verdicts": {"root/a/x.txt": "file"}}],
+                        "desc": "%sglob %r over tree plain .filter_entry(..)" % ("rooted " if rooted else "", g)})
     return out
 
 
@@ -983,11 +1008,60 @@ def exhaustive_tables(scenarios, tag):
     return accepts
 
 
+def pruning_oracle(prop, scenarios, results, yielded, v, tag):
+    """glob walks: the glob layer discards an entry as a tree exactly when one of the walk's component programs (hook)
+    rejects the corresponding component of the entry's path; the programs are exported as automata over an alphabet
+    that holds every character of the paths involved.  Returns the number of entries compared."""
+    todo = []
+    for h in scenarios:
+        if h.get("glob") is None or h.get("skip_trace") or h["sid"] not in yielded or not h.get("_plain_prefix", True):
+            continue
+        r = results[h["sid"]]
+        text = C.text(r["glob_text"]) if h.get("rooted") else C.text(h["glob"])
+        top = C.text(r["top"])
+        chars = set(C.cps(text)) - set(C.cps("{}<>:,*?[]()!\\$")) | {47, 10}
+        cands = {}
+        for y in yielded[h["sid"]]:
+            if y["err"] != "none" or y["gout"] is None or y["text"] is None:
+                continue
+            cand = (top + "/" + y["text"]) if h.get("rooted") else W.rel_to(y["text"], h["_base_text"])
+            cands[id(y)] = (y, [c for c in cand.split("/") if c])
+            chars |= set(C.cps(cand))
+        todo.append((h, text, sorted(chars), cands))
+    if not todo:
+        return 0
+    cases = [{"id": i + 1, "kind": "glob", "fam": "walkcomp", "e": C.cps(text), "sigma": sigma} for i, (_, text, sigma, _) in enumerate(todo)]
+    obs = {o["id"]: o for o in L.read_ndjson(L.observe(cases, "dfa,walk", tag))}
+    n = 0
+    for i, (h, text, sigma, cands) in enumerate(todo):
+        o = obs.get(i + 1)
+        if o is None or o["outcome"] != "ok" or "walk" not in o or any(not t["ok"] for t in o["walk"]):
+            continue
+        for y, comps in cands.values():
+            rejected = False
+            for t, comp in zip(o["walk"], comps):
+                q = 0
+                for ch in comp:
+                    q = t["delta"][q][sigma.index(ord(ch))] - 1
+                if not t["acc"][q]:
+                    rejected = True
+                    break
+            n += 1
+            if rejected != (y["gout"] == "T"):
+                v.disagree({"t": "DISAGREE", "what": "pruning_differs_from_component_programs", "sid": h["sid"], "scenario": h},
+                           "%s: entry %r: a component program %s its component but the glob layer answers %s" % (
+                               h["desc"], y["text"], "rejects" if rejected else "does not reject", {"T": "tree", "N": "file", "F": "keep"}[y["gout"]]))
+    return n
+
+
 def library_oracles(prop, scenarios, results, yielded, v):
     """C13: an entry that the exhaustive program of a negation matches is discarded as a tree, and only such an entry"""
+    extra = {}
+    if prop in ("C13", "C16"):
+        extra["glob_layer_verdicts_compared_with_component_programs"] = pruning_oracle(prop, scenarios, results, yielded, v, "walkcomp-" + prop.lower())
     lib = [h for h in scenarios if h.get("origin") == "library" and h.get("_neg")]
     if not lib:
-        return {}
+        return extra
     accepts = exhaustive_tables(lib, "negwalk13")
     n = 0
     for h in lib:
@@ -1005,7 +1079,7 @@ def library_oracles(prop, scenarios, results, yielded, v):
             if ex is False and verdict == "tree":
                 v.disagree({"t": "DISAGREE", "what": "tree_discard_without_exhaustive_match", "sid": h["sid"], "scenario": h},
                            "%s: entry %r is discarded as a tree although no exhaustive alternative matches it" % (h["desc"], y["text"]))
-    return {"not_verdicts_compared_with_the_exhaustive_program": n}
+    return dict(extra, not_verdicts_compared_with_the_exhaustive_program=n)
 
 
 CHECKS["C13"] = lambda tier: filters_check("C13", tier)
@@ -1115,10 +1189,12 @@ def check_C02(tier):
             cand = (C.text(r["top"]) + "/" + base) if h.get("rooted") else ""
             if not is_match[((g,), cand)]:
                 v.disagree({"t": "DISAGREE", "what": "base_yielded_without_matching", "sid": h["sid"], "sig": sig, "scenario": h}, "%s: the base was yielded but the glob does not match %r" % (h["desc"], cand))
+    n_pruned = pruning_oracle("C02", scenarios, results, yielded, v, "walkcomp-c02")
     samples = [{"scenario": h["desc"], "yielded": [C.text(b["item"]["facts"]["path"]["p"]) for b in results[h["sid"]]["blocks"] if b["item"]["k"] == "entry"][:8]}
                for h in rnd.sample(scenarios, min(5, len(scenarios)))]
     rc = v.finish()
     C.write_evidence("C02", tier, "model_checking", {
+        "glob_layer_verdicts_compared_with_component_programs": n_pruned,
         "states": sum(st["distinct"] for _, st in mc) + tstats["distinct"] + cs_stats["distinct"],
         "transitions": sum(st["generated"] for _, st in mc) + tstats["generated"] + cs_stats["generated"],
         "traces_validated_against_impl": ntraces,
